@@ -488,6 +488,11 @@ func (pe *probeEnv) runCase(c execCase, res *result, seed int64) {
 					found = true
 				}
 			}
+			if pl.FaultKind == "emptylist" && faultT != nil && !faultT.Multi {
+				// the resolver failed with an error value that carries no message of its own (an
+				// empty gqlerror.List): some error must still be reported for it
+				found = len(resp.errs) > 0
+			}
 			// under a multi batch that the generated code could not even start (known findings
 			// above would have fired) the stub is never called; otherwise its failure must surface
 			if !found && rec.faultFired > 0 {
@@ -757,6 +762,9 @@ func casesOf(m *schemaModel, seed int64, probe string, idx int) []execCase {
 	}
 	rng := rand.New(rand.NewSource(int64(h64(uint64(seed), base+"#faults"))))
 	kinds := []string{"error", "panic"}
+	if idx%5 == 2 {
+		kinds = []string{"emptylist", "panic"}
+	}
 	if (len(reps) <= 8 && idx%4 == 0) || idx%61 == 0 {
 		for _, j := range ok {
 			for _, k := range kinds {
